@@ -66,6 +66,7 @@ func genC05(t *rapid.T) Case {
 	c := Case{Prof: "c05", Roots: rapid.IntRange(1, 2).Draw(t, "roots"), MaxDir: 100, Others: rapid.IntRange(0, 2).Draw(t, "others")}
 	c.Keys = GenKeys(t, 2, 3, false)
 	c.KeysHex = GenBinKeys(t)
+	c.ShareRoot = rapid.IntRange(0, 3).Draw(t, "shareRoot") == 0
 	// now and then a key whose version record is larger than a megabyte (Badger keeps such values in its
 	// value log and treats their size differently)
 	if rapid.IntRange(0, 19).Draw(t, "hugeKey") == 0 {
